@@ -912,7 +912,8 @@ func ArgsToLogMap(args any, maxLen int) map[string]string {
 	for i := 0; i < val.NumField(); i++ {
 		field := val.Field(i)
 		key := typ.Field(i).Tag.Get("log")
-		if key == "" {
+		// (the value of an unexported field cannot be read)
+		if key == "" || !field.CanInterface() {
 			continue
 		}
 
